@@ -15,9 +15,8 @@ def writer_roots(facts):
 
 
 def lock_analysis(facts):
-    key = id(facts)
-    if key not in _MEMO:
+    if '_lock_analysis' not in facts.__dict__:
         la = LockAnalysis(facts, writer_roots(facts))
         la.run()
-        _MEMO[key] = la
-    return _MEMO[key]
+        facts.__dict__['_lock_analysis'] = la
+    return facts.__dict__['_lock_analysis']
